@@ -43,7 +43,10 @@ STRACE = shutil.which("strace") or "strace"
 # projects
 # ------------------------------------------------------------------------------------------
 
-def project_files(name, variant, dep_url=None, incremental=True):
+NEWFILE = ("src/newmod.veryl", "module NewMod (\n    i_a: input  logic<3>,\n    o_b: output logic<3>,\n) {\n    assign o_b = i_a + 1;\n}\n")
+
+
+def project_files(name, variant, dep_url=None, incremental=True, newfile=False):
     """A small multi-file project that uses the standard library (so a broken std shows)."""
     w = 4 + 2 * variant
     files = {}
@@ -81,6 +84,8 @@ def project_files(name, variant, dep_url=None, incremental=True):
     inst ur: Reg{variant} ( i_clk, i_rst, i_d: g, o_q );
 {dep_inst}}}
 """
+    if newfile:
+        files[NEWFILE[0]] = NEWFILE[1]
     for k in range(variant):
         files[f"src/extra{k}.veryl"] = f"module Extra{variant}_{k} (\n    i_a: input  logic<{k + 2}>,\n    o_b: output logic<{k + 2}>,\n) {{\n    assign o_b = ~i_a;\n}}\n"
     return files
@@ -378,15 +383,31 @@ def gen_schedule(rng, scenario, index):
     else:
         s["inject"] = None
     s["aim"] = None
+    write_inj = lambda lo, hi: {"side": "first", "spec": f"write:delay_enter={rng.range(lo, hi)}"}  # noqa: E731
     if scenario == "a":
-        s["build_cache"] = rng.pick(["cold", "warm", "warm_edited"])
+        s["build_cache"] = rng.pick(["warm", "warm_edited"])
         s["user_cache"] = rng.pick(["cold", "warm"])
         s["launch"] = rng.pick([{"kind": "offset", "ms": rng.pick([0, 0, 5, 20, 60, 150, 400])},
                                 {"kind": "trigger", "what": "build_locked", "ms": rng.pick([0, 1, 10, 50])}])
-        if rng.chance(1, 5):
+        # a guaranteed share of FIRST-WRITE schedules: files that do not exist yet are created by the racing builds
+        slot = index % 5
+        if slot == 0:
+            s["build_cache"] = "cold"                       # fresh project: everything is a first write
+        elif slot == 1:
+            # aimed: .build is gone, so info.toml is created; the second process loads it before taking .build/lock
+            s.update({"aim": "info_first_write", "quiet": True, "build_cache": "build_dir_removed", "user_cache": "warm",
+                      "incremental": False, "inject": write_inj(500_000, 900_000),
+                      "launch": {"kind": "trigger", "what": "info_write", "ms": rng.pick([0, 0, 20, 100])}})
+        elif slot == 2:
+            # after `veryl clean`: all outputs are created again; stretch the create..write windows of the first builder
+            s.update({"build_cache": "cleaned", "user_cache": "warm", "inject": write_inj(10_000, 40_000),
+                      "launch": {"kind": "trigger", "what": "build_locked", "ms": rng.pick([0, 10, 50])}})
+        elif slot == 3:
+            s.update({"build_cache": "new_file", "user_cache": "warm", "inject": rng.pick([write_inj(15_000, 70_000), s["inject"]])})
+        elif rng.chance(1, 2):
             # aimed: the second process loads .build/info.toml (before it takes .build/lock) while the first rewrites it
             s.update({"aim": "info_write", "quiet": True, "build_cache": "warm_edited", "user_cache": "warm",
-                      "inject": {"side": "first", "spec": f"write:delay_enter={rng.range(500_000, 900_000)}"},
+                      "inject": write_inj(500_000, 900_000),
                       "launch": {"kind": "trigger", "what": "info_write", "ms": rng.pick([0, 0, 20, 100])}})
     elif scenario == "b":
         s["build_cache"] = rng.pick(["cold", "warm"])
@@ -395,9 +416,21 @@ def gen_schedule(rng, scenario, index):
         trig = ["std_mkdir", "std_first_file"] if s["user_cache"] == "cold" else ["cache_store", "build_locked"]
         s["launch"] = rng.pick([{"kind": "offset", "ms": rng.pick([0, 10, 50, 150, 400, 800])},
                                 {"kind": "trigger", "what": rng.pick(trig), "ms": rng.pick([0, 2, 20, 100, 300])}])
-        if rng.chance(1, 6):
+        slot = index % 4
+        if slot == 0:
+            s["build_cache"] = "cold"
+        elif slot == 1:
+            # aimed: veryl-ls (lock-free reader) loads info.toml / Veryl.lock while the build creates them
+            s.update({"aim": "info_first_write", "quiet": True, "build_cache": "build_dir_removed", "user_cache": "warm",
+                      "first": "build", "incremental": False, "inject": write_inj(700_000, 1_200_000),
+                      "launch": {"kind": "trigger", "what": "info_write", "ms": 0}})
+        elif slot == 2:
+            s.update({"build_cache": rng.pick(["cleaned", "new_file"]), "user_cache": "warm", "first": "build",
+                      "inject": write_inj(10_000, 40_000),
+                      "launch": {"kind": "trigger", "what": "build_locked", "ms": rng.pick([0, 20, 100])}})
+        elif rng.chance(1, 3):
             s.update({"aim": "info_write", "quiet": True, "build_cache": "warm", "user_cache": "warm", "first": "build",
-                      "inject": {"side": "first", "spec": f"write:delay_enter={rng.range(700_000, 1_200_000)}"},
+                      "inject": write_inj(700_000, 1_200_000),
                       "launch": {"kind": "trigger", "what": "info_write", "ms": 0}})
     else:
         s["user_cache"] = "cold"
@@ -475,7 +508,7 @@ def make_shdep(case):
     return repo.url
 
 
-def setup_case(case, names_variants, git_dep, incremental):
+def setup_case(case, names_variants, git_dep, incremental, newfile=False):
     """Create <case>/{home,<name>...}; returns (home, {name: root})."""
     shutil.rmtree(case, ignore_errors=True)
     os.makedirs(os.path.join(case, "home"))
@@ -486,7 +519,7 @@ def setup_case(case, names_variants, git_dep, incremental):
     roots = {}
     for name, variant in names_variants:
         root = os.path.join(case, name)
-        write_project(root, project_files(name, variant, dep_url, incremental))
+        write_project(root, project_files(name, variant, dep_url, incremental, newfile))
         roots[name] = root
     return os.path.join(case, "home"), roots
 
@@ -521,12 +554,14 @@ def _run_schedule(s, case, baselines, timeout, res, sabotage):
         layout = [("prja", s["variantA"])]
 
     # ---- clean solo baselines (same layout, own directory) -----------------------------------
+    newfile = s.get("build_cache") == "new_file"
+
     def base_for(name, variant):
-        key = (name, variant, git_dep, inc)
+        key = (name, variant, git_dep, inc, newfile)
 
         def make():
-            bdir = os.path.join(baselines.base, f"base-{name}-{variant}-{int(git_dep)}-{int(inc)}")
-            home, roots = setup_case(bdir, [(name, variant)], git_dep, inc)
+            bdir = os.path.join(baselines.base, f"base-{name}-{variant}-{int(git_dep)}-{int(inc)}-{int(newfile)}")
+            home, roots = setup_case(bdir, [(name, variant)], git_dep, inc, newfile)
             code, err = solo_build(roots[name], home)
             dig = outputs_digest(roots[name], bdir) if code == 0 else None
             return {"code": code, "digest": dig, "err": err[-600:]}
@@ -542,20 +577,35 @@ def _run_schedule(s, case, baselines, timeout, res, sabotage):
     home, roots = setup_case(case, layout, git_dep, inc)
     cache_root = os.path.join(home, ".cache")
     prja = roots["prja"]
-    if s.get("user_cache") == "warm" or s.get("build_cache") in ("warm", "warm_edited"):
+    bc = s.get("build_cache")
+    if s.get("user_cache") == "warm" or bc in ("warm", "warm_edited", "cleaned", "build_dir_removed", "new_file"):
         code, err = solo_build(prja, home)
         if code != 0:
             res.inconclusive.append(f"warm-up build failed: {err[-300:]}")
             return res
-        if s.get("build_cache") == "cold":
+        if bc == "cold":
             wipe_outputs(prja)
-        elif s.get("build_cache") == "warm_edited":
+        elif bc == "warm_edited":
             # newer mtime than the recorded generation time: the outputs count as stale and are re-emitted
             now = time.time() + 2
             for f in ("reg.veryl", "top.veryl"):
                 os.utime(os.path.join(prja, "src", f), (now, now))
+        elif bc == "cleaned":
+            # `veryl clean` removes every generated file: the racing builds write all outputs for the first time
+            p = subprocess.run([VERYL, "--quiet", "clean"], cwd=prja, env=cli_env(home), stdout=subprocess.PIPE, stderr=subprocess.PIPE, timeout=300)
+            if p.returncode != 0:
+                res.inconclusive.append(f"veryl clean failed: {p.stderr.decode('utf-8', 'replace')[-300:]}")
+                return res
+            res.count("prepared_with_veryl_clean")
+        elif bc == "build_dir_removed":
+            # outputs and Veryl.lock stay, .build goes: info.toml / cache manifest / blobs are first-time writes
+            shutil.rmtree(os.path.join(prja, ".build"), ignore_errors=True)
+        elif bc == "new_file":
+            with open(os.path.join(prja, NEWFILE[0]), "w") as f:
+                f.write(NEWFILE[1])
         if s.get("user_cache") == "cold":
             shutil.rmtree(cache_root, ignore_errors=True)
+    res.seen("build_cache_variants", f"{scen}:{bc or 'cold'}")
     logs = os.path.join(case, "logs")
     os.makedirs(logs)
 
@@ -659,6 +709,9 @@ def _run_schedule(s, case, baselines, timeout, res, sabotage):
               "events", "parse_errors", "shared_written_paths"):
         if st.get(k):
             res.count(k, st[k])
+    for k, v in st.items():
+        if k.startswith("final_name_writes:") or k.startswith("atomic_publishes"):
+            res.count(k, v)
     if st.get("lifetimes_overlap"):
         res.count("schedules_lifetimes_overlapped")
         res.count(f"schedules_lifetimes_overlapped_{scen}")
@@ -807,7 +860,7 @@ def main():
     if st_problems:
         run.inconclusive(f"strace_check self-test failed: {st_problems[:2]}")
         run.finish([])
-    run.count("checker_selftest_cases", 4)
+    run.count("checker_selftest_cases", 6)
     baselines = Baselines(os.path.join(base, "baselines"))
     os.makedirs(baselines.base)
 
@@ -876,9 +929,11 @@ def main():
     per = n if not args.replay else 0
     floors = [("schedules", int(0.9 * per * ns)), ("schedules_lifetimes_overlapped", int(0.3 * per * ns)),
               ("schedules_critical_sections_interleaved", int(0.2 * per * ns)), ("events", 2000 * per * ns // 3),
-              ("flock_calls", 2 * per * ns), ("writer_sessions", 10 * per * ns // 3)]
+              ("flock_calls", 2 * per * ns), ("writer_sessions", 10 * per * ns // 3),
+              # the structural rule saw real publishes of the lock-free-read classes (first writes included)
+              ("atomic_publishes", 30 * per * ns // 3), ("atomic_publishes:build:info", per * ns // 3)]
     if "a" in scenarios and per:
-        floors += [("flock_waited", max(1, per // 5))]
+        floors += [("flock_waited", max(1, per // 5)), ("atomic_publishes:output", per), ("atomic_publishes:project:lockfile", max(1, per // 5))]
     if "b" in scenarios and per:
         floors += [("ls_sessions_completed", per // 3), ("ls_flock_nonblocking", max(1, per // 5))]
     if "c" in scenarios and per:
